@@ -546,7 +546,8 @@ func caseB(l litB) string {
 	return "ival\t" + l.q + "\t" + vh.HexS(l.text) + "\t" + strings.Join(hv, ",")
 }
 
-func runB(f *vh.Flags, o *vh.Out, lits []litB) error {
+// progB builds the XGo source printing every literal (I) and its explicit concatenation (X).
+func progB(lits []litB) string {
 	var sb strings.Builder
 	sb.WriteString(preludeB)
 	for _, s := range strVars {
@@ -572,32 +573,73 @@ func runB(f *vh.Flags, o *vh.Out, lits []litB) error {
 	for i := 0; i < nf; i++ {
 		fmt.Fprintf(&sb, "part%d()\n", i)
 	}
-	src := sb.String()
-	os.WriteFile(filepath.Join(f.Out, "prog.xgo"), []byte(src), 0o644)
+	return sb.String()
+}
+
+// tryB compiles (XGo → Go), builds and runs the program for lits.
+func tryB(f *vh.Flags, o *vh.Out, lits []litB, keep bool) (stdout string, err error) {
+	src := progB(lits)
+	if keep {
+		os.WriteFile(filepath.Join(f.Out, "prog.xgo"), []byte(src), 0o644)
+	}
 	t0 := time.Now()
 	gosrc, err := xrun.CompileFile("main.xgo", src, false)
 	if err != nil {
-		return fmt.Errorf("the generated XGo program does not compile: %v", err)
+		return "", fmt.Errorf("the generated XGo program does not compile: %v", err)
 	}
-	o.Stats["ms_xgo_compile"] = int(time.Since(t0).Milliseconds())
-	os.WriteFile(filepath.Join(f.Out, "prog.go.txt"), gosrc, 0o644)
+	if keep {
+		o.Stats["ms_xgo_compile"] = int(time.Since(t0).Milliseconds())
+		os.WriteFile(filepath.Join(f.Out, "prog.go.txt"), gosrc, 0o644)
+	}
 	t0 = time.Now()
 	res, err := xrun.RunBatch(filepath.Join(f.Out, "build"), [][]byte{gosrc}, 60*time.Second)
-	o.Stats["ms_go_build_run"] = int(time.Since(t0).Milliseconds())
+	if keep {
+		o.Stats["ms_go_build_run"] = int(time.Since(t0).Milliseconds())
+	}
 	os.RemoveAll(filepath.Join(f.Out, "build"))
 	if err != nil {
-		return err
+		return "", err
 	}
 	if res[0].BuildErr != "" || res[0].Timeout || res[0].Exit != 0 {
 		msg := res[0].String()
 		if len(msg) > 1500 {
 			msg = msg[:1500]
 		}
-		return fmt.Errorf("generated program failed: %s", msg)
+		return "", fmt.Errorf("generated program failed: %s", msg)
+	}
+	return res[0].Stdout, nil
+}
+
+func runB(f *vh.Flags, o *vh.Out, lits []litB) error {
+	stdout, err := tryB(f, o, lits, true)
+	if err != nil {
+		// every literal is valid and its explicit concatenation is plain Go: find one literal
+		// that alone makes the program fail (bisection) and report it as a concrete input
+		first := err
+		cur := lits
+		for len(cur) > 1 {
+			half := cur[:len(cur)/2]
+			if _, e := tryB(f, o, half, false); e != nil {
+				cur = half
+			} else {
+				cur = cur[len(cur)/2:]
+			}
+		}
+		if _, e := tryB(f, o, cur, false); e == nil {
+			return first // not attributable to one literal
+		} else {
+			msg := e.Error()
+			if len(msg) > 600 {
+				msg = msg[:600]
+			}
+			o.Oracle("literal-does-not-compile-or-run", caseB(cur[0]), msg)
+			o.Case(caseB(cur[0]), "FAILED", true)
+			return nil
+		}
 	}
 	type rec struct{ hex, ev string }
 	got := map[string]rec{}
-	for _, ln := range strings.Split(res[0].Stdout, "\n") {
+	for _, ln := range strings.Split(stdout, "\n") {
 		fs := strings.SplitN(ln, " ", 4)
 		if len(fs) == 4 {
 			got[fs[0]+fs[1]] = rec{fs[2], fs[3]}
@@ -651,7 +693,7 @@ func genLits(r *vh.Rand, n int) []litB {
 func main() {
 	f := vh.ParseFlags()
 	f.Out, _ = filepath.Abs(f.Out)
-	os.Chdir(xrun.Repo()) // the in-process importer runs the go command in the current directory
+	os.Chdir(xrun.Repo())                       // the in-process importer runs the go command in the current directory
 	if pf := os.Getenv("C05_PROBE"); pf != "" { // manual experiments: compile one XGo file and show the Go
 		src, _ := os.ReadFile(pf)
 		gosrc, err := xrun.CompileFile("main.xgo", string(src), false)
